@@ -403,17 +403,43 @@ func parseConditionParams(parameterMap map[string]*openfgav1.ConditionParamTypeR
 				return "", errors.ConditionParameterMissingGenericTypeError(parameterName, parameterTypeString)
 			}
 
+			genericType := parameterType.GetGenericTypes()[0]
 			genericTypeString := strings.ToLower(
 				strings.ReplaceAll(
-					parameterType.GetGenericTypes()[0].GetTypeName().String(), "TYPE_NAME_", ""),
+					genericType.GetTypeName().String(), "TYPE_NAME_", ""),
 			)
 			parameterTypeString = fmt.Sprintf("%s<%s>", parameterTypeString, genericTypeString)
+
+			// the DSL writes a container of exactly one scalar type
+			if len(parameterType.GetGenericTypes()) != 1 || len(genericType.GetGenericTypes()) != 0 ||
+				!isDSLParameterType(genericType.GetTypeName()) {
+				return "", errors.ConditionParameterUnsupportedTypeError(parameterName, parameterTypeString)
+			}
+		} else if len(parameterType.GetGenericTypes()) != 0 || !isDSLParameterType(parameterType.GetTypeName()) {
+			return "", errors.ConditionParameterUnsupportedTypeError(parameterName, parameterTypeString)
 		}
 
 		parametersStringArray = append(parametersStringArray, fmt.Sprintf("%s: %s", parameterName, parameterTypeString))
 	}
 
 	return strings.Join(parametersStringArray, ", "), nil
+}
+
+// isDSLParameterType - whether the DSL has a word for the scalar parameter type (CONDITION_PARAM_TYPE in the grammar).
+func isDSLParameterType(typeName openfgav1.ConditionParamTypeRef_TypeName) bool {
+	switch typeName { //nolint:exhaustive
+	case openfgav1.ConditionParamTypeRef_TYPE_NAME_BOOL,
+		openfgav1.ConditionParamTypeRef_TYPE_NAME_STRING,
+		openfgav1.ConditionParamTypeRef_TYPE_NAME_INT,
+		openfgav1.ConditionParamTypeRef_TYPE_NAME_UINT,
+		openfgav1.ConditionParamTypeRef_TYPE_NAME_DOUBLE,
+		openfgav1.ConditionParamTypeRef_TYPE_NAME_DURATION,
+		openfgav1.ConditionParamTypeRef_TYPE_NAME_TIMESTAMP,
+		openfgav1.ConditionParamTypeRef_TYPE_NAME_IPADDRESS:
+		return true
+	default:
+		return false
+	}
 }
 
 func parseCondition(conditionName string, conditionDef *openfgav1.Condition, includeSourceInformation bool) (string, error) {
